@@ -34,6 +34,12 @@ def cases(draw):
     if fields and draw(st.booleans()):
         drop = draw(st.sampled_from(fields))
         c["inputs"].append({k: v for k, v in c["inputs"][0].items() if k != drop})
+    nums = [f for f, cl in (c.get("classes") or {}).items() if cl == "num"]
+    if nums and c["inputs"] and draw(st.integers(0, 2)) == 0:
+        # a NaN in a numeric field: `not x > 4` and `x <= 4` are different questions; both sides must still agree
+        f = draw(st.sampled_from(nums))
+        c["inputs"].append(dict(c["inputs"][0], **{f: M.enc(float("nan"))}))
+        c["inputs"].append(dict(c["inputs"][-2 if len(c["inputs"]) > 1 else 0], **{f: M.enc(float("inf"))}))
     return c
 
 
